@@ -32,14 +32,19 @@ def corpus_specs(name="parsing"):
 
 
 def small_specs(tier, rng, allow_cyclic=True, overlap_rate=3, nrand_quick=120, nrand_thorough=1500,
+                chains=True, fixed=True, fixed_quick=600, fixed_thorough=8000,
                 exhaustive_quick=((1, 1, 3, 2), (2, 1, 3, 2)),
                 exhaustive_thorough=((1, 1, 3, 3), (2, 1, 3, 2), (2, 2, 3, 2), (2, 1, 4, 2))):
     specs = [s for s in corpus_specs() if allow_cyclic or not gen.is_cyclic(s.rules, s.nonterminals())]
     for n_nt, n_t, p, r in (exhaustive_quick if tier == "quick" else exhaustive_thorough):
         specs.extend(gen.enum_grammars(n_nt, n_t, p, r, allow_cyclic=allow_cyclic))
+    if chains:
+        specs.extend(gen.chain_family(depth=2, sizes=(3, 4), limit=(150 if tier == "quick" else 3000)))
+    if fixed:
+        specs.extend(gen.fixed_stream(fixed_quick if tier == "quick" else fixed_thorough))
     n_exh = len(specs)
     for s in specs:
-        s.exhaustive = True
+        s.exhaustive = True     # deterministic (seed-independent) scope
     for i in range(nrand_quick if tier == "quick" else nrand_thorough):
         s = gen.random_grammar(rng, overlap=(overlap_rate and i % overlap_rate == 0),
                                allow_cyclic=allow_cyclic and (i % 5 == 0))
@@ -54,7 +59,10 @@ def inputs_for(spec, maxtok, rng, layout=True, cap=400):
         if t not in base:
             base.insert(0, t)
     if len(base) > cap:
-        base = base[:cap // 2] + rng.sample(base[cap // 2:], cap // 2)
+        if getattr(spec, "exhaustive", False):
+            base = base[:cap]      # deterministic scope: no seed-dependent choice
+        else:
+            base = base[:cap // 2] + rng.sample(base[cap // 2:], cap // 2)
     out = list(base)
     single = all(k == "str" and len(v) == 1 for k, v in spec.terms.values())
     if layout and single:
@@ -81,3 +89,30 @@ def err_pos(e):
 
 def bump(d, k, n=1):
     d[k] = d.get(k, 0) + n
+
+
+LAYOUT_CHARS = " \n\t\r"
+
+
+def strip_layout(text):
+    return "".join(ch for ch in text if ch not in LAYOUT_CHARS)
+
+
+def canon_keys(keys, text):
+    """Packed-alternative keys with every position replaced by the number of
+    non-layout characters before it, so that a case and its layout variants have
+    the same fingerprint."""
+    pre = [0]
+    for ch in text:
+        pre.append(pre[-1] + (0 if ch in LAYOUT_CHARS else 1))
+
+    def f(q):
+        return pre[q] if 0 <= q < len(pre) else q
+
+    def span(sp):
+        return ("e", f(sp[1])) if sp[0] == "e" else (f(sp[0]), f(sp[1]))
+
+    def node(nk):
+        return (nk[0], span(nk[1]))
+
+    return sorted(repr((node(k[0]), k[1], tuple(node(c) for c in k[2]))) for k in keys)
